@@ -25,6 +25,8 @@ func checkC14(c *Ctx) {
 	c.Rule("C14/R7", "unit metadata survives from file to file: Files never replaces its reader wholesale and the reader creates its unit table only when it has none")
 
 	c.Rule("C14/R8", "-filter stays in force when -table/-row/-col carry a fixed value list: the projection parser ANDs the list's membership tests with the caller's filter, keeping that filter among the operands (same rule as C06/R6), so a measurement the filter rejects cannot reach a cell")
+	c.Rule("C14/R15", "a measurement lands in the column of its file (same rule as C02/R8): only unlabelled inputs count towards 'same path given twice', labelled inputs keep the user's label")
+	c.Rule("C14/R16", "what a cell prints is the documented rendering of its summary and comparison (same rule as C13/R5)")
 	c.Rule("C14/R14", "every measurement's residue is recorded: in Builder.Add each append of a value to a cell is followed on every path of that step by an update of the cell's residue set")
 	c.Rule("C14/R13", "the -alpha setting reaches every comparison (same rule as C13/R8): NewSample keeps the thresholds it was handed, verbatim")
 	c.Rule("C14/R12", "every cell is summarised under its own unit's assumption (same rule as C15/R12): no goroutine started in the per-table loop captures a variable declared outside the loop and assigned inside it")
@@ -45,6 +47,8 @@ func checkC14(c *Ctx) {
 	c15LoopCaptures(c, p, "C14/R12")
 	c13Thresholds(c, p, "C14/R13")
 	c14ResidueRecorded(c, p)
+	c.Under("C02/R8", "C14/R15", func() { c02Labels(c, p) })
+	c.Under("C13/R5", "C14/R16", func() { c13Render(c, p) })
 	// the baseline is the first column in the columns' order, and for first-observation fields that order is the
 	// recorded ranks: same rule as C09/R1 + R4
 	if fm := p.Method("benchproc", "Projection", "FlattenedFields"); fm != nil {
